@@ -339,6 +339,8 @@ class EdgeQLSourceGenerator(codegen.SourceGenerator):
         self._visit_aliases(node)
 
         self._write_keywords('FOR ')
+        if node.optional:
+            self._write_keywords('OPTIONAL ')
         self.write(ident_to_str(node.iterator_alias))
         self._write_keywords(' IN ')
         self.visit(node.iterator)
@@ -780,6 +782,8 @@ class EdgeQLSourceGenerator(codegen.SourceGenerator):
         self.write('<')
         if node.cardinality_mod is qlast.CardinalityModifier.Optional:
             self.write('optional ')
+        elif node.cardinality_mod is qlast.CardinalityModifier.Required:
+            self.write('required ')
         self.visit(node.type)
         self.write('>')
         self.visit(node.expr)
@@ -1179,7 +1183,10 @@ class EdgeQLSourceGenerator(codegen.SourceGenerator):
         self._visit_AlterObject(node, node.flavor)
 
     def visit_DropDatabase(self, node: qlast.DropDatabase) -> None:
-        self._visit_DropObject(node, node.flavor)
+        def after_name() -> None:
+            if node.force:
+                self._write_keywords(' FORCE')
+        self._visit_DropObject(node, node.flavor, after_name=after_name)
 
     def visit_CreateRole(self, node: qlast.CreateRole) -> None:
         after_name = lambda: self._ddl_visit_bases(node)
@@ -1791,6 +1798,8 @@ class EdgeQLSourceGenerator(codegen.SourceGenerator):
         keywords = []
         if node.abstract:
             keywords.append('ABSTRACT')
+        if node.final:
+            keywords.append('FINAL')
         keywords.append('SCALAR')
         keywords.append('TYPE')
 
